@@ -3,16 +3,15 @@
    One case = one scenario (base module + sequence of library calls, all derived from (seed, idx)) executed in k
    separate child processes, each with its own RandomState hash seeds.  There is no single-process "model output" for
    bytes; what the model predicts is *whether the output can depend on the process*: by the theorems of
-   Proofs/DetermProofs.v every HashMap iteration of the encode path is order-free except the one in
-   ModuleTypes::new, whose effect reaches the output exactly when a requested type is structurally equal to a type
-   the input has twice (D11, class 11).  So the prediction is "deterministic" unless [d11_pred] holds on the input.
+   Proofs/DetermProofs.v every HashMap iteration of the encode path is order-free (since the repair of D11 also the
+   one in ModuleTypes::new, whose keys are sorted before use).  So the prediction is "deterministic", always.
 
      holds04   (independent specification, written from the property text): all k observations are equal --
                same status (encoded / panicked at the same stage) and same hash of the bytes;
-     agree04   the prediction agrees with what was observed: predicted deterministic -> observed deterministic
-               (for a D11 input both outcomes are compatible with the model: the k processes may happen to agree);
+     agree04   the prediction agrees with what was observed = holds04;
      domain04  at least two processes reported and none of them died without reporting (status 9).
-   A nondeterministic case outside D11 is both a mismatch and an unlisted failure. *)
+   A nondeterministic case is both a mismatch and an unlisted failure; there is no known class any more.
+   [dup_request] (the former D11 predicate) is kept as a statistic only. *)
 From Coq Require Import List NArith Bool.
 Import ListNotations.
 From Orca Require Import Util HashOrder.
@@ -33,10 +32,9 @@ Definition all_equal (l : list (N * N)) : bool :=
 Definition holds04 (c : dcase) : bool := all_equal (dc_obs c).
 Definition domain04 (c : dcase) : bool :=
   (2 <=? N.of_nat (length (dc_obs c))) && forallb (fun o => negb (N.eqb (fst o) 9)) (dc_obs c).
-Definition known_D11 (c : dcase) : bool := d11_pred (dc_base c) (dc_added c).
-Definition predicted_deterministic (c : dcase) : bool := negb (known_D11 c).
+Definition dup_request (c : dcase) : bool := d11_pred (dc_base c) (dc_added c).
+Definition predicted_deterministic (c : dcase) : bool := true.
 Definition agree04 (c : dcase) : bool := if predicted_deterministic c then holds04 c else true.
 
-Definition verdict04 (c : dcase) : verdict :=
-  (agree04 c, domain04 c, holds04 c, if known_D11 c then [11] else []).
+Definition verdict04 (c : dcase) : verdict := (agree04 c, domain04 c, holds04 c, []).
 Definition report_C04 := run_report verdict04.
